@@ -511,7 +511,7 @@ func (db *Database) SearchWithFuzzy(query string, options SearchOptions) []Searc
 
 	// First try exact search
 	exactOptions := options
-	exactOptions.Limit = options.Limit * constants.FuzzySearchMultiplier
+	exactOptions.Limit = scaledLimit(options.Limit, constants.FuzzySearchMultiplier)
 	exactOptions.UseFuzzy = false
 	exactResults := db.SearchWithOptions(query, exactOptions)
 
@@ -605,13 +605,19 @@ func (db *Database) performFuzzySearch(query string, options SearchOptions) []Se
 // count made the TF-IDF searcher slice its results out of range (panic) and the typo fallback stop
 // before its first match. A non-positive limit collects no candidates.
 func candidateLimit(limit int) int {
+	return scaledLimit(limit, 2)
+}
+
+// scaledLimit is limit*factor for a positive factor, saturating at MaxInt instead of wrapping
+// around (0 for a non-positive limit).
+func scaledLimit(limit, factor int) int {
 	if limit <= 0 {
 		return 0
 	}
-	if limit > math.MaxInt/2 {
+	if limit > math.MaxInt/factor {
 		return math.MaxInt
 	}
-	return limit * 2
+	return limit * factor
 }
 
 // fuzzyFind runs the fuzzy matcher on targets made free of NUL characters: sahilm/fuzzy takes a
